@@ -15,3 +15,13 @@ mod types;
 pub use decoder::{DecoderOption, H263State};
 pub use error::{Error, Result};
 pub use types::{PictureOption, PictureTypeCode};
+
+/// Verification hooks (feature `verif-hooks`): re-exports of internal items so
+/// that an external harness can name header types and call the block-level
+/// primitives directly. Adds no behaviour.
+#[cfg(feature = "verif-hooks")]
+pub mod verif_hooks {
+    pub use crate::decoder::{idct_channel, inverse_rle, DecodedPicture};
+    pub use crate::parser::{Entry, Table};
+    pub use crate::types::*;
+}
